@@ -715,6 +715,16 @@ def gen_e2e(ctx):
         # shared duplicate peers across trackers: reuse the first valid tracker's body in another one
         out.append({"name": "e2e-%d" % i, "specs": specs, "cmd": "announce",
                     "shape": ("five-bytes", "empty-file", "empty-files", "large")[i % 4]})
+    # the same peer reported by several trackers of one torrent is printed once (added after seeded change C18-7 / C12: the set of
+    # printed peers kept per tracker instead of per run)
+    recs = [bytes([10, 0, 0, k]) + struct.pack(">H", 6880 + k) for k in range(1, 5)]
+    hdr = struct.pack(">III", 1800, 1, 2)
+    def shared(*idx):
+        return {"action": 1, "txid": "echo", "body": (hdr + b"".join(recs[i] for i in idx)).hex()}
+    for name, bodies in (("two-overlap", [(0, 1), (0, 2)]), ("three-overlap", [(0, 1), (2, 0), (1, 3, 0)]), ("identical", [(0, 1), (0, 1)]),
+                         ("overlap-and-repeat", [(0, 0, 1), (1, 2, 1)])):
+        out.append({"name": "e2e-shared-peers-" + name, "cmd": "announce",
+                    "specs": [{"t": "udp", "kind": "valid", "v6": False, "s1": [good_connect(rng)], "s2": [shared(*b)]} for b in bodies]})
     # all trackers unusable
     out.append({"name": "e2e-only-http", "specs": [{"t": "http"}], "cmd": "announce"})
     out.append({"name": "e2e-only-portless", "specs": [{"t": "portless"}, {"t": "garbage"}], "cmd": "announce"})
